@@ -244,10 +244,17 @@ func reproduced(v *Violation, oc *replayOutcome) bool {
 			return true
 		}
 		lines := strings.Split(out[i:], "\n")
-		for k := 1; k < len(lines) && k <= 1; k++ {
-			if strings.Contains(lines[k], "."+fn+"(") || strings.Contains(lines[k], "."+fn+".func") {
-				return true
+		for k := 1; k < len(lines); k++ {
+			l := lines[k]
+			// skip file:line lines and the frames a panic in the test goroutine
+			// itself puts on top (recovered and re-panicked by package testing)
+			if l == "" || strings.HasPrefix(l, "\t") || strings.HasPrefix(l, "testing.") || strings.HasPrefix(l, "panic(") || strings.HasPrefix(l, "runtime.") {
+				if l == "" {
+					break
+				}
+				continue
 			}
+			return strings.Contains(l, "."+fn+"(") || strings.Contains(l, "."+fn+".func")
 		}
 		return false
 	case "deadlock":
